@@ -88,13 +88,7 @@ class Impl:
             except (IndexError, AttributeError):
                 pass
             return ('OK', bts.decode(encoding), bts, encoding), line
-        try:
-            return self.with_prefs(prefs, go)
-        finally:
-            if prefs['indentSpecificities']:
-                # do_CSSStyleRule leaves _selectorlevel/_selectors behind (finding C06-selectorlevel-leak):
-                # a fresh serializer object keeps the following cases clean
-                self.cu.setSerializer(self.cu.serialize.CSSSerializer())
+        return self.with_prefs(prefs, go)
 
 
 class Probe:
@@ -138,7 +132,8 @@ class C06(Check):
     )
     assumptions = (
         'text.encode(encoding, "escapecss") (the last step of do_CSSStyleSheet) is outside C06 (C08)',
-        'indentSpecificities (EXPERIMENTAL) is modelled only as the state _selectorlevel it leaves behind',
+        'indentSpecificities (EXPERIMENTAL): its effect while switched on is not modelled; that nothing of it outlives '
+        'the serialization of one sheet is (doSheet does not read the state) and is checked by the restore oracle',
     )
     rule = ('sheets: grammar generator (style/@media nested/@import/@namespace/@page+margin boxes/@font-face/@charset/'
             '@variables/unknown at-rules/comments at every level/values with hashes, numbers, strings, urls, functions, '
@@ -673,11 +668,13 @@ class C06(Check):
     def oracle_restore(self, ctx, im):
         rng = ctx.sub_rng('restore')
         cu = im.cu
-        for _ in range(ctx.n(40, 800)):
-            src = G.sheet(rng)
+        fixed = ['a{b:c} a.x{c:d} a.x.y{e:f}', 'a{b:c} @media print{a.x{c:d}} a.x.y{e:f}']
+        for n in range(ctx.n(40, 800) + len(fixed)):
+            src = fixed[n] if n < len(fixed) else G.sheet(rng)
             try:
                 sh = im.parse(src)
                 d0 = sh.cssText
+                r0 = [r.cssText for r in sh.cssRules]     # also every rule serialized on its own
             except TimeLimit:
                 raise
             except Exception:
@@ -692,7 +689,7 @@ class C06(Check):
                         history.append('useMinified()')
                     else:
                         d = self.random_record(im, rng)
-                        if rng.random() < 0.15:
+                        if rng.random() < 0.15 or n < len(fixed):
                             d['indentSpecificities'] = True
                         for kk, v in d.items():
                             setattr(p, kk, v)
@@ -706,6 +703,7 @@ class C06(Check):
                         pass
                 p.useDefaults()
                 same_record = dict(vars(p)) == im.defaults
+                r1 = [r.cssText for r in sh.cssRules]    # first: serializing the sheet resets the state itself
                 d1 = sh.cssText
             finally:
                 p.useDefaults()
@@ -713,21 +711,9 @@ class C06(Check):
             wit = {'src': src, 'history': history}
             if not same_record:
                 ctx.violate('useDefaults() does not restore the preference record', wit, None)
-            elif d1 != d0:
-                known = None
-                if cu.ser._selectorlevel != 0:
-                    # region of C06-selectorlevel-leak: state of the serializer object outside the preferences
-                    lvl = cu.ser._selectorlevel
-                    cu.ser._selectorlevel = 0
-                    if sh.cssText == d0:
-                        known = 'C06-selectorlevel-leak'
-                    cu.ser._selectorlevel = lvl
+            elif d1 != d0 or r1 != r0:
                 ctx.violate('useDefaults() does not restore the default output', wit,
-                            {'default': d0.decode('utf-8', 'replace')[:300], 'after': d1.decode('utf-8', 'replace')[:300]},
-                            known=known)
-            # a fresh serializer for the next history (the leaked state would otherwise poison it)
-            if cu.ser._selectorlevel != 0 or cu.ser._selectors:
-                cu.setSerializer(cu.serialize.CSSSerializer())
+                            {'default': d0.decode('utf-8', 'replace')[:300], 'after': d1.decode('utf-8', 'replace')[:300]})
 
     # ------------------------------------------------------------------------------------------
     def known(self, ctx, finding):
@@ -735,19 +721,6 @@ class C06(Check):
         w = finding['witness']['data']
         fid = finding['id']
         try:
-            if fid == 'C06-selectorlevel-leak':
-                cu = im.cu
-                cu.setSerializer(cu.serialize.CSSSerializer())
-                sh = im.parse(w['src'])
-                d0 = sh.cssText
-                try:
-                    cu.ser.prefs.indentSpecificities = True
-                    sh.cssText
-                finally:
-                    cu.ser.prefs.useDefaults()
-                d1 = sh.cssText
-                cu.setSerializer(cu.serialize.CSSSerializer())
-                return d1 != d0
             sh = im.parse(w['src'])
             prefs = self.full(im, w['prefs'])
             res, _ = im.serialize(sh, prefs)
